@@ -6,11 +6,14 @@
 From Ristretto Require Import Base.Word Tree.Node Tree.NodeProofs Tree.Tree Tree.TreeProofs Tree.Reopen Tree.ReopenProofs.
 Open Scope N_scope.
 
-(* The full statement: for every history and every split point, reopening in between changes nothing observable
-   (same tree pages, same leaf entries hence same map, same nextPage / NumPages, same free list hence the same
-   future recycling, same NumLeafKeys and NumPagesFree) and the continued run ends in the same observable state. *)
-Definition C16_reopen_statement : Prop :=
-  forall M ps a b, (4 <= M)%nat -> ps <= 1048568 -> Forall op_ok (a ++ b) -> reopen_agrees M ps a b = true.
+(* The full statement in executable form: for every history a ++ b (every split point), running a, closing and
+   reopening, then running b, versus running a ++ b without the reopen: the observable state -- page ids of the tree
+   in traversal order, leaf entries (hence the map), nextPage (NumPages), the whole free list (freePage and all later
+   recycling), NumLeafKeys, NumPagesFree; everything but the buffer size -- is the same right after the reopen and at
+   the end; no step panics ([reopen_agrees] is false if any step yields None). *)
+Theorem C16_reopen_agrees : forall M ps a b, (4 <= M)%nat -> 0 < ps <= 1048568 -> Forall op_ok a -> Forall op_ok b ->
+  reopen_agrees M ps a b = true.
+Proof. intros M ps a b HM. exact (reopen_agrees_true M HM ps a b). Qed.
 
 (* Close + NewTreePersistent at any point of any history: the reopened tree has the same pages and leaf entries (hence
    the same key-value mapping), the same nextPage (NumPages), the same free list (freePage and every later recycling
@@ -56,13 +59,7 @@ Proof.
   split; [exact (tree_reopen_spec M HM ps st Hps (proj2 Hwf))|]. split; [apply reopened_same|apply reopened_wf; exact Hwf].
 Qed.
 
-(* PARTIAL (the remaining part of C16_reopen_statement): that the continued run on the reopened tree also has the
-   same PAGE-LEVEL observables (tree pages, nextPage, free list, stats) as the un-interrupted run -- i.e. that the
-   operations do not depend on the ghost depth beyond the tree's height nor on the buffer fields curSz/offset -- is
-   not proved in general; C16_reopen proves equality of the MAPS of the two runs and WF of both.  The page-level
-   equality is evaluated below on concrete histories at every split point. *)
-
-(* The full statement evaluated: page size 80 (M = 4), a history with 3 levels of splits, overwrites, a DeleteBelow
+(* C16_reopen_agrees evaluated (a sanity check of the statement itself; the theorem covers all histories): page size 80 (M = 4), a history with 3 levels of splits, overwrites, a DeleteBelow
    that frees pages, re-inserts that recycle them, a rewriting IterateKV and a second DeleteBelow -- closed and
    reopened at EVERY one of its split points. *)
 Definition c16_ops : list op :=
@@ -91,6 +88,7 @@ Proof.
 Qed.
 
 Print Assumptions C16_reopen.
+Print Assumptions C16_reopen_agrees.
 Print Assumptions C16_reopen_same_obs.
 Print Assumptions C16_reopen_every_split_point.
 Print Assumptions C16_nonvacuous.
